@@ -281,7 +281,7 @@ pub fn replay(part: &str, case: serde_json::Value) -> Option<CaseResult> {
 pub fn meta() -> EvidenceMeta {
     EvidenceMeta {
         level: "exploration",
-        rule: "cases = histories of 1-8 cfgtree configurations whose most verbose level is steered per step (cap level and holder drawn: root / any logger incl. deep descendants), initialised through init_config, init_config_with_err_handler or init_raw_config (YAML + file appenders, single step) in a dedicated child process, then replaced with Handle::set_config; after every step: log::max_level() and Logger::max_log_level() equal the model's most verbose level, log::logger().enabled() equals the effective logger's threshold on a grid of 3-5 derived targets x 5 levels, and log! macro deliveries equal route() and come from the current configuration's appenders only. non-trivial = a step whose maximum differs from the previous step's while the most verbose level is held by a non-root logger; distinct = FNV hash of the history".into(),
+        rule: "cases = histories of 1-8 cfgtree configurations whose most verbose level is steered per step (cap level and holder drawn: root / any logger incl. deep descendants), initialised through init_config, init_config_with_err_handler or init_raw_config (YAML + file appenders, single step) in a dedicated child process, then replaced with Handle::set_config; after every step: log::max_level() and Logger::max_log_level() equal the model's most verbose level, log::logger().enabled() equals the effective logger's threshold on a grid of 3-5 derived targets x 5 levels, and log! macro deliveries equal route() and come from the current configuration's appenders only. While set_config tears the outgoing configuration down, one of its appenders logs a record through the macros which the incoming configuration admits at its most verbose level: it must arrive as the incoming configuration prescribes. non-trivial = a step whose maximum differs from the previous step's while the most verbose level is held by a non-root logger; distinct = FNV hash of the history".into(),
         assumptions: vec!["log facade compiled without static max-level features".into()],
         mutants_caught: vec![],
     }
